@@ -37,6 +37,7 @@ pub fn run(tier: Tier, seed: u64) -> i32 {
     ev.floor("commit at max degree (Ok)", ev.bucket_get("commit.max_degree_ok"), 5);
     ev.floor("batch planted-error positions", ev.set_len("planted") as u64, 15);
     ev.floor("batches accepted", ev.bucket_get("batch.accepted"), 10);
+    ev.floor("aggregates containing a zero polynomial", ev.bucket_get("aggregate_with_zero_polynomial"), 5);
     ev.floor("batches rejected", ev.bucket_get("batch.rejected"), 30);
     ev.finish()
 }
@@ -247,6 +248,13 @@ fn opening_checks(ev: &Ev, tier: Tier, seed: u64) {
                     rand_coeffs(&mut rng, l, 0)
                 })
                 .collect();
+            let mut polys = polys;
+            if k >= 2 && rng.next_u32() % 3 == 0 {
+                // a zero polynomial inside the aggregate (its commitment is the identity)
+                let pos = rng.next_u32() as usize % k;
+                polys[pos] = if rng.next_u32() % 2 == 0 { Vec::new() } else { vec![BlsScalar::zero(); 3] };
+                ev.bucket("aggregate_with_zero_polynomial");
+            }
             let ys: Vec<BlsScalar> = polys.iter().map(|p| rf::horner(p, &z)).collect();
             let cs: Vec<G1Affine> = polys.iter().map(|p| dv::commit(ck, p).unwrap()).collect();
             let v = rand_scalar(&mut rng);
@@ -316,6 +324,11 @@ fn opening_checks(ev: &Ev, tier: Tier, seed: u64) {
             }
         }
         let expected = opens.iter().all(|o| rk::opening_holds(&g, &h, &xh, &o.c, &o.y, &o.z, &o.w));
+        // completeness: an opening built from true evaluations, the real
+        // aggregate witness and real commitments satisfies the pairing equation
+        if label == "all-true" && !expected {
+            ev.violation("C20:honest-opening-does-not-satisfy-the-pairing-equation", json!({"m": m, "deg": deg, "ci": ci}));
+        }
         let tuple: Vec<dv::Opening> = opens.iter().map(|o| (o.w, o.y, o.c)).collect();
         let desc = json!({"part": "batch", "m": m, "deg": deg, "planted": label, "expected_accept": expected});
         ev.case(&desc, true);
